@@ -781,29 +781,122 @@ where
     let ps_ref = Rc::new(RefCell::new(ps));
     let job_futures: FuturesUnordered<Pin<Box<dyn Future<Output = ()>>>> = FuturesUnordered::new();
     pin_mut!(job_futures);
-    {
-        let mut seen: HashSet<RedoPathBuf> = HashSet::new();
-        // Different spellings ("a", "./a", "d/../a") name the same file: deduplicate
-        // by database id too, since the lock registry allows one Lock per id.
-        let mut seen_ids: HashSet<i64> = HashSet::new();
-        for i in target_order.iter().copied() {
-            let t = targets[i].as_ref();
-            if t.is_empty() {
-                log_err!("cannot build the empty target (\"\").\n");
-                result.set(Err(RedoErrorKind::InvalidTarget(t.into()).into()));
-                break;
+    // Everything that can fail once jobs may be running happens inside this block,
+    // so that no error path leaves without looking after those jobs (see below).
+    let outcome: Result<(), RedoError> = async {
+        {
+            let mut seen: HashSet<RedoPathBuf> = HashSet::new();
+            // Different spellings ("a", "./a", "d/../a") name the same file: deduplicate
+            // by database id too, since the lock registry allows one Lock per id.
+            let mut seen_ids: HashSet<i64> = HashSet::new();
+            for i in target_order.iter().copied() {
+                let t = targets[i].as_ref();
+                if t.is_empty() {
+                    log_err!("cannot build the empty target (\"\").\n");
+                    result.set(Err(RedoErrorKind::InvalidTarget(t.into()).into()));
+                    break;
+                }
+                assert!(ps_ref.borrow().is_flushed());
+                if seen.contains(t) {
+                    continue;
+                }
+                seen.insert(t.into());
+                // TODO(maybe): Commit state if !has_token.
+                let token_future = server.ensure_token_or_cheat(t.as_str(), &mut cheat).fuse();
+                pin_mut!(token_future);
+                wait_for(token_future, job_futures.as_mut())
+                    .await
+                    .map_err(RedoError::opaque_error)?;
+                let errored = {
+                    let r = result.replace(Ok(()));
+                    let errored = r.is_err();
+                    result.set(r);
+                    errored
+                };
+                if errored && !ps_ref.borrow().env().keep_going {
+                    break;
+                }
+                // TODO(soon): state.check_sane.
+                {
+                    let mut ps = ps_ref.borrow_mut();
+                    let mut ptx = ProcessTransaction::new(*ps, TransactionBehavior::Immediate)
+                        .map_err(RedoError::opaque_error)?;
+                    ptx.set_drop_behavior(DropBehavior::Commit);
+                    let mut f = state::File::from_name(&mut ptx, t, true)?;
+                    if !seen_ids.insert(f.id()) {
+                        continue;
+                    }
+                    let mut lock = ptx.state().new_lock(f.id().try_into().unwrap());
+                    if ptx.state().env().unlocked {
+                        lock.force_owned();
+                    } else if let Err(e) = lock.try_lock() {
+                        // (for example a cyclic dependency)  Jobs started for earlier
+                        // targets may still be running: do not return while they are,
+                        // or their results are never recorded and their locks are
+                        // released while their scripts still run.  Remember the error
+                        // and let the code below wait for them.
+                        result.set(Err(e));
+                        continue;
+                    }
+                    if !lock.is_owned() {
+                        logs::meta(
+                            "locked",
+                            state::target_relpath(ptx.state().env(), &t)?.as_str(),
+                            None,
+                        );
+                        locked.push_back((f.id(), t));
+                    } else {
+                        // We had to create f before we had a lock, because we need f.id
+                        // to make the lock.  But someone may have updated the state
+                        // between then and now.
+                        // FIXME: separate obtaining the fid from creating the File.
+                        // FIXME: maybe integrate locking into the File object?
+                        f.refresh(&mut ptx)?;
+                        let job = match (BuildJob {
+                            t: t.into(),
+                            sf: f,
+                            lock,
+                            should_build_func: should_build_func.clone(),
+                        })
+                        .start(ps_ref.clone(), ptx, server)
+                        {
+                            Ok(job) => job,
+                            Err(e) => {
+                                // as above: never abandon jobs that are already running
+                                result.set(Err(e));
+                                continue;
+                            }
+                        };
+                        let t = t.to_string();
+                        let result = &result;
+                        job_futures.push(Box::pin(async move {
+                            let rv = job.await;
+                            if rv != EXIT_SUCCESS {
+                                result.set(Err(RedoError::new(format!("{:?}: exit code {}", t, rv))));
+                            }
+                        }));
+                    }
+                }
+                assert!(ps_ref.borrow().is_flushed());
             }
-            assert!(ps_ref.borrow().is_flushed());
-            if seen.contains(t) {
-                continue;
-            }
-            seen.insert(t.into());
-            // TODO(maybe): Commit state if !has_token.
-            let token_future = server.ensure_token_or_cheat(t.as_str(), &mut cheat).fuse();
-            pin_mut!(token_future);
-            wait_for(token_future, job_futures.as_mut())
-                .await
-                .map_err(RedoError::opaque_error)?;
+        }
+
+        // Now we've built all the "easy" ones.  Go back and just wait on the
+        // remaining ones one by one.  There's no reason to do it any more
+        // efficiently, because if these targets were previously locked, that
+        // means someone else was building them; thus, we probably won't need to
+        // do anything.  The only exception is if we're invoked as redo instead
+        // of redo-ifchange; then we have to redo it even if someone else already
+        // did.  But that should be rare.
+        while !locked.is_empty() || server.is_running() {
+            let jobs_done_future = server.wait_all();
+            pin_mut!(jobs_done_future);
+            wait_for(jobs_done_future, job_futures.as_mut()).await?;
+            // Every child process has exited, but the futures that record the jobs'
+            // results (and then drop the targets' locks) may not have been polled to
+            // completion yet.  Finish them now: blocking on someone else's lock below
+            // while still holding ours lets two redo processes wait for each other.
+            while job_futures.as_mut().next().await.is_some() {}
             let errored = {
                 let r = result.replace(Ok(()));
                 let errored = r.is_err();
@@ -813,180 +906,107 @@ where
             if errored && !ps_ref.borrow().env().keep_going {
                 break;
             }
-            // TODO(soon): state.check_sane.
-            {
-                let mut ps = ps_ref.borrow_mut();
-                let mut ptx = ProcessTransaction::new(*ps, TransactionBehavior::Immediate)
-                    .map_err(RedoError::opaque_error)?;
-                ptx.set_drop_behavior(DropBehavior::Commit);
-                let mut f = state::File::from_name(&mut ptx, t, true)?;
-                if !seen_ids.insert(f.id()) {
-                    continue;
-                }
-                let mut lock = ptx.state().new_lock(f.id().try_into().unwrap());
-                if ptx.state().env().unlocked {
-                    lock.force_owned();
-                } else if let Err(e) = lock.try_lock() {
-                    // (for example a cyclic dependency)  Jobs started for earlier
-                    // targets may still be running: do not return while they are,
-                    // or their results are never recorded and their locks are
-                    // released while their scripts still run.  Remember the error
-                    // and let the code below wait for them.
-                    result.set(Err(e));
-                    continue;
-                }
-                if !lock.is_owned() {
+            if let Some((fid, t)) = locked.pop_front() {
+                // TODO(soon): check_sane
+                let mut lock = ps_ref.borrow().new_lock(fid);
+                let mut backoff = Duration::from_millis(100);
+                // wait_all() may have left us without any token, and starting a job needs
+                // exactly one.  No lock is held here (all jobs are finished and recorded),
+                // so it is safe to wait for a token before looking at the lock: if the
+                // target has become free in the meantime we go straight on to build it.
+                server.ensure_token_or_cheat(t.as_str(), &mut cheat).await?;
+                lock.try_lock()?;
+                while !lock.is_owned() {
+                    // Don't spin with 100% CPU while we fight for the lock.
+                    server
+                        .sleep(Duration::from_millis(
+                            (rand::random::<f32>()
+                                * (cmp::min(backoff, Duration::from_millis(1000)).as_millis()) as f32)
+                                as u64,
+                        ))
+                        .await;
+                    backoff *= 2;
+                    // after printing this line, redo-log will recurse into t,
+                    // whether it's us building it, or someone else.
                     logs::meta(
-                        "locked",
-                        state::target_relpath(ptx.state().env(), &t)?.as_str(),
+                        "waiting",
+                        state::target_relpath(ps_ref.borrow().env(), &t)?.as_str(),
                         None,
                     );
-                    locked.push_back((f.id(), t));
-                } else {
-                    // We had to create f before we had a lock, because we need f.id
-                    // to make the lock.  But someone may have updated the state
-                    // between then and now.
-                    // FIXME: separate obtaining the fid from creating the File.
-                    // FIXME: maybe integrate locking into the File object?
-                    f.refresh(&mut ptx)?;
-                    let job = match (BuildJob {
-                        t: t.into(),
-                        sf: f,
-                        lock,
-                        should_build_func: should_build_func.clone(),
-                    })
-                    .start(ps_ref.clone(), ptx, server)
-                    {
-                        Ok(job) => job,
-                        Err(e) => {
-                            // as above: never abandon jobs that are already running
-                            result.set(Err(e));
-                            continue;
-                        }
-                    };
-                    let t = t.to_string();
-                    let result = &result;
-                    job_futures.push(Box::pin(async move {
-                        let rv = job.await;
-                        if rv != EXIT_SUCCESS {
-                            result.set(Err(RedoError::new(format!("{:?}: exit code {}", t, rv))));
-                        }
-                    }));
+                    lock.check()?;
+                    // this sequence looks a little silly, but the idea is to
+                    // give up our personal token while we wait for the lock to
+                    // be released; but we should never run ensure_token() while
+                    // holding a lock, or we could cause deadlocks.
+                    if server.has_token() {
+                        // wait_all() may already have left us without any token.
+                        server.release_mine()?;
+                    }
+                    lock.wait_lock(LockType::Exclusive)?;
+                    // now t is definitely free, so we get to decide whether
+                    // to build it.
+                    lock.unlock()?;
+                    server.ensure_token_or_cheat(t.as_str(), &mut cheat).await?;
+                    lock.try_lock()?;
                 }
-            }
-            assert!(ps_ref.borrow().is_flushed());
-        }
-    }
-
-    // Now we've built all the "easy" ones.  Go back and just wait on the
-    // remaining ones one by one.  There's no reason to do it any more
-    // efficiently, because if these targets were previously locked, that
-    // means someone else was building them; thus, we probably won't need to
-    // do anything.  The only exception is if we're invoked as redo instead
-    // of redo-ifchange; then we have to redo it even if someone else already
-    // did.  But that should be rare.
-    while !locked.is_empty() || server.is_running() {
-        let jobs_done_future = server.wait_all();
-        pin_mut!(jobs_done_future);
-        wait_for(jobs_done_future, job_futures.as_mut()).await?;
-        // Every child process has exited, but the futures that record the jobs'
-        // results (and then drop the targets' locks) may not have been polled to
-        // completion yet.  Finish them now: blocking on someone else's lock below
-        // while still holding ours lets two redo processes wait for each other.
-        while job_futures.as_mut().next().await.is_some() {}
-        let errored = {
-            let r = result.replace(Ok(()));
-            let errored = r.is_err();
-            result.set(r);
-            errored
-        };
-        if errored && !ps_ref.borrow().env().keep_going {
-            break;
-        }
-        if let Some((fid, t)) = locked.pop_front() {
-            // TODO(soon): check_sane
-            let mut lock = ps_ref.borrow().new_lock(fid);
-            let mut backoff = Duration::from_millis(100);
-            // wait_all() may have left us without any token, and starting a job needs
-            // exactly one.  No lock is held here (all jobs are finished and recorded),
-            // so it is safe to wait for a token before looking at the lock: if the
-            // target has become free in the meantime we go straight on to build it.
-            server.ensure_token_or_cheat(t.as_str(), &mut cheat).await?;
-            lock.try_lock()?;
-            while !lock.is_owned() {
-                // Don't spin with 100% CPU while we fight for the lock.
-                server
-                    .sleep(Duration::from_millis(
-                        (rand::random::<f32>()
-                            * (cmp::min(backoff, Duration::from_millis(1000)).as_millis()) as f32)
-                            as u64,
-                    ))
-                    .await;
-                backoff *= 2;
-                // after printing this line, redo-log will recurse into t,
-                // whether it's us building it, or someone else.
                 logs::meta(
-                    "waiting",
+                    "unlocked",
                     state::target_relpath(ps_ref.borrow().env(), &t)?.as_str(),
                     None,
                 );
-                lock.check()?;
-                // this sequence looks a little silly, but the idea is to
-                // give up our personal token while we wait for the lock to
-                // be released; but we should never run ensure_token() while
-                // holding a lock, or we could cause deadlocks.
-                if server.has_token() {
-                    // wait_all() may already have left us without any token.
-                    server.release_mine()?;
-                }
-                lock.wait_lock(LockType::Exclusive)?;
-                // now t is definitely free, so we get to decide whether
-                // to build it.
-                lock.unlock()?;
-                server.ensure_token_or_cheat(t.as_str(), &mut cheat).await?;
-                lock.try_lock()?;
-            }
-            logs::meta(
-                "unlocked",
-                state::target_relpath(ps_ref.borrow().env(), &t)?.as_str(),
-                None,
-            );
-            {
-                let mut ps = ps_ref.borrow_mut();
-                let mut ptx = ProcessTransaction::new(*ps, TransactionBehavior::Immediate)
-                    .map_err(RedoError::opaque_error)?;
-                ptx.set_drop_behavior(DropBehavior::Commit);
-                let file = state::File::from_name(&mut ptx, t, true)?;
-                if file.is_failed(ptx.state().env()) {
-                    result.set(Err(RedoErrorKind::FailedInAnotherThread {
-                        target: t.to_redo_path_buf(),
-                    }
-                    .into()));
-                    lock.unlock()?;
-                } else {
-                    let sf = state::File::from_id(&mut ptx, fid)?;
-                    let job = BuildJob {
-                        t: t.to_redo_path_buf(),
-                        sf,
-                        lock,
-                        should_build_func: should_build_func.clone(),
-                    }
-                    .start(ps_ref.clone(), ptx, server)?;
-                    let t = t.to_string();
-                    let result = &result;
-                    job_futures.push(Box::pin(async move {
-                        let rv = job.await;
-                        if rv != EXIT_SUCCESS {
-                            result.set(Err(RedoError::new(format!("{:?}: exit code {}", t, rv))));
+                {
+                    let mut ps = ps_ref.borrow_mut();
+                    let mut ptx = ProcessTransaction::new(*ps, TransactionBehavior::Immediate)
+                        .map_err(RedoError::opaque_error)?;
+                    ptx.set_drop_behavior(DropBehavior::Commit);
+                    let file = state::File::from_name(&mut ptx, t, true)?;
+                    if file.is_failed(ptx.state().env()) {
+                        result.set(Err(RedoErrorKind::FailedInAnotherThread {
+                            target: t.to_redo_path_buf(),
                         }
-                    }));
+                        .into()));
+                        lock.unlock()?;
+                    } else {
+                        let sf = state::File::from_id(&mut ptx, fid)?;
+                        let job = BuildJob {
+                            t: t.to_redo_path_buf(),
+                            sf,
+                            lock,
+                            should_build_func: should_build_func.clone(),
+                        }
+                        .start(ps_ref.clone(), ptx, server)?;
+                        let t = t.to_string();
+                        let result = &result;
+                        job_futures.push(Box::pin(async move {
+                            let rv = job.await;
+                            if rv != EXIT_SUCCESS {
+                                result.set(Err(RedoError::new(format!("{:?}: exit code {}", t, rv))));
+                            }
+                        }));
+                    }
                 }
+            }
+        }
+        Ok(())
+    }
+    .await;
+    if outcome.is_err() {
+        // An error above (a target that cannot be looked up, a lock or database
+        // failure, a cyclic dependency met while waiting) must not abandon jobs
+        // that are already running: their results would never be recorded and
+        // their locks would be released at exit while their scripts still run.
+        while server.is_running() {
+            let jobs_done_future = server.wait_all();
+            pin_mut!(jobs_done_future);
+            if wait_for(jobs_done_future, job_futures.as_mut()).await.is_err() {
+                break;
             }
         }
     }
     // TODO(maybe): Use !job_futures.is_empty() instead of server.is_running() in
     // the above loop.
     job_futures.fold((), |_, _| future::ready(())).await;
+    outcome?;
     result.replace(Ok(()))
 }
 
